@@ -140,6 +140,12 @@ def _drain(q):
 
 def _collect(proto, p, child):
     S = _lib()
+    if getattr(p, "_verif_waited", False):
+        # somebody had waited for a backward frame and given up: let the event loop make a few passes, so that whatever
+        # that wait left behind has had its chance to take (and lose) what arrived since
+        import asyncio
+        for _ in range(3):
+            _loop().run_until_complete(asyncio.sleep(0))
     got = {"raw": _drain(p._queue_rx_raw_dali), "conf": [], "info": [], "observed": [], "confmsg": []}
     for c in _drain(child):
         got["observed"].append(list(c.frame.as_byte_sequence))
@@ -545,6 +551,7 @@ def _transmit(p, proto, op, cmdno):
         # still delivered to whoever asks next.  (Only when nothing is queued: the wait would rightly take it.)
         if p._queue_rx_raw_dali.qsize():
             return None
+        p._verif_waited = True
         coro = p.wait_dali_raw_response()
     elif op == "send":
         coro = p.send_dali_command(cmds[cmdno % len(cmds)])
